@@ -16,7 +16,8 @@ Section TransferTick.
 
   Hypothesis P_step : forall b f k s, P s -> outcome_ok P (step p e b f k s).
   Hypothesis P_fail : forall s n, P s -> P (set_error (set_ns s n (set_failed (st s n) true)) n).
-  Hypothesis P_ints : forall s i sr, P s -> P (with_ints s i sr).
+  (* a generator is stored back into its map entry (the only map update outside the transitions) *)
+  Hypothesis P_ints : forall s n sr k, P s -> P (with_ints s (write_back (ints s) n sr k) (serial s)).
   Hypothesis P_sched : forall s, P s -> P {| nodes := nodes s; ints := ints s; serial := serial s; last_error := last_error s;
                                              block_tag := block_tag s; scheduled := 0; marks := marks s |}.
 
@@ -81,7 +82,8 @@ Section Transfer.
   Variable P : S -> Prop.
   Hypothesis P_step : forall e b f k s, P s -> outcome_ok P (step p e b f k s).
   Hypothesis P_fail : forall s n, P s -> P (set_error (set_ns s n (set_failed (st s n) true)) n).
-  Hypothesis P_ints : forall s i sr, P s -> P (with_ints s i sr).
+  (* a generator is stored back into its map entry (the only map update outside the transitions) *)
+  Hypothesis P_ints : forall s n sr k, P s -> P (with_ints s (write_back (ints s) n sr k) (serial s)).
   Hypothesis P_cmd : forall s n, P s -> P (mark_completed s n).
   Hypothesis P_sched : forall s, P s -> P {| nodes := nodes s; ints := ints s; serial := serial s; last_error := last_error s;
                                              block_tag := block_tag s; scheduled := 0; marks := marks s |}.
@@ -113,5 +115,20 @@ Section Transfer.
     assert (H1 : P s1) by now apply complete_cmds_P.
     destruct (tick p (rounds_of p) (fuel_of p) _ main s1) as [[[main' s2] r]|] eqn:T; [|constructor].
     pose proof (tick_P p _ P (P_step _) P_fail P_ints P_sched _ _ _ _ _ _ _ H1 T) as H2. constructor; [exact H2|now apply IH].
+  Qed.
+
+  (* the same for the views the correspondence observes *)
+  Definition view_of (s : S) (raised : bool) : view :=
+    {| v_nodes := nodes s; v_ints := map fst (ints s); v_block := block_tag s; v_sched := scheduled s;
+       v_raised := raised; v_error := last_error s |}.
+  Theorem run_views_P (Q : view -> Prop) : (forall s raised, P s -> Q (view_of s raised)) ->
+    forall ts main s now, P s -> Forall Q (run_ticks p main s now ts).
+  Proof.
+    intros HQ. induction ts as [|t ts IH]; intros main s now H; cbn [run_ticks]; [constructor|].
+    set (s1 := fold_left (complete_cmd p) (t_complete t) s).
+    assert (H1 : P s1) by now apply complete_cmds_P.
+    destruct (tick p (rounds_of p) (fuel_of p) _ main s1) as [[[main' s2] r]|] eqn:T; [|constructor].
+    pose proof (tick_P p _ P (P_step _) P_fail P_ints P_sched _ _ _ _ _ _ _ H1 T) as H2.
+    constructor; [exact (HQ s2 r H2)|now apply IH].
   Qed.
 End Transfer.
